@@ -66,15 +66,24 @@ pub fn judge_zero_temperature(out: &RunOut, mono: &Option<(usize, String)>, cfg:
         }
     }
     if let Some((k, msg)) = mono {
-        let prev = if *k >= 2 { out.steps.get(k - 2) } else { None };
-        return Err(format!(
-            "{}: at kt_start = 0 no history in which only proposals scoring at least the current score are accepted explains the trace: a worse or undefined proposal was kept (loop {}; previous proposal #{} scored {:?}); {}",
-            what,
-            (*k as u64).saturating_sub(1) / inner + 1,
-            k - 1,
-            prev.map(|p| p.returned),
-            msg
-        ));
+        // reported only when the unexplained proposal derives from the previous proposal, which the model had to
+        // drop because it scored below the current state or had no score: that proposal was kept. Any other
+        // unexplained trace is a corrupted state (C06's subject); C05 then rests on the final-score comparison.
+        if *k >= 2 && *k - 1 < out.steps.len() {
+            let prev = &out.steps[k - 2];
+            let cur = &out.steps[k - 1];
+            let near = prev.proposal.iter().zip(cur.proposal.iter()).filter(|(x, y)| x.to_bits() != y.to_bits()).count() <= 1;
+            if near {
+                return Err(format!(
+                    "{}: at kt_start = 0 proposal #{} (score {:?}) was kept although no history in which only proposals scoring at least the current score are accepted allows it (loop {}); {}",
+                    what,
+                    prev.k,
+                    prev.returned,
+                    (prev.k as u64 - 1) / inner + 1,
+                    msg
+                ));
+            }
+        }
     }
     if out.inconsistency.is_some() && !final_score_is_observed {
         // the forced script answers relative to the Metropolis model's current score, which is unknown here
@@ -215,7 +224,7 @@ fn run_real<S: State>(state: S, cfg: &OptCfg) -> Result<RunOut, String> {
         (fc, m.steps.clone(), m.inconsistency.clone(), m.initial.clone(), m.calls)
     };
     let returned_score = keep.as_ref().map(|s| s.score());
-    Ok(RunOut { panicked, returned_params, returned_score, calls_during_run: calls, steps, final_cands, inconsistency, initial, log_scores: vec![], shadow_final: vec![], shadow_inconsistency: None })
+    Ok(RunOut { panicked, returned_params, returned_score, calls_during_run: calls, steps, final_cands, inconsistency, initial, log_scores: vec![], shadow_final: vec![], shadow_inconsistency: None, shadow_steps: vec![] })
 }
 
 fn real_oracle(c: &RealCase, rec: &Rec, _: &Ctx) -> Result<(), String> {
